@@ -89,10 +89,11 @@ type distributedEngine struct {
 }
 
 func NewDistributedEngine(opts Opts, endpoints api.RemoteEndpoints) v1.QueryEngine {
-	opts.LogicalOptimizers = append(
-		opts.LogicalOptimizers,
-		logicalplan.DistributedExecutionOptimizer{Endpoints: endpoints},
-	)
+	// Copy the optimizers so that the caller's slice, which may be shared with
+	// other engines, is not modified.
+	optimizers := make([]logicalplan.Optimizer, 0, len(opts.LogicalOptimizers)+1)
+	optimizers = append(optimizers, opts.LogicalOptimizers...)
+	opts.LogicalOptimizers = append(optimizers, logicalplan.DistributedExecutionOptimizer{Endpoints: endpoints})
 	return &distributedEngine{
 		endpoints:   endpoints,
 		localEngine: New(opts),
